@@ -16,13 +16,13 @@ from ..fmutil import T, ad, err_class, fm, scalar, us
 
 MODULES = ["Output", "OutputLemmas"]
 GEN_OBLIGATIONS = ["caching_push_based", "push_based_adapters_are_caching", "passthrough_flags", "slot_flags"]
-KINDS = ["direct", "scale", "prev", "next", "scale_prev", "prev_scale"]
+KINDS = ["direct", "scale", "prev", "next", "scale_prev", "prev_scale", "scale_shared"]
 PUSH_BASED = {"prev", "next", "scale_prev", "prev_scale"}
 
 
 def gen_case(rng, max_events=40):
     n = rng.choice([1, 1, 2, 2, 2, 3, 3, 4])
-    eps = [rng.choices(KINDS, weights=[40, 20, 12, 8, 10, 10])[0] for _ in range(n)]
+    eps = [rng.choices(KINDS, weights=[36, 16, 10, 8, 8, 8, 14])[0] for _ in range(n)]
     scale = rng.choice([1, 1, 2, 1000, 3_600_000_000, 86_400_000_000])
     gaps = rng.choice([[1, 2, 3], [2, 4, 6, 10], [1, 5, 7, 20], [3]])
     t = rng.randrange(0, 5) * scale
@@ -41,7 +41,10 @@ def gen_case(rng, max_events=40):
             k = rng.choice(pullers)
             lo = last[k] if last[k] is not None else pubs[0] - (scale if rng.random() < 0.1 else 0)
             mode = rng.random()
-            if mode < 0.35:
+            prev_pull = next((e for e in reversed(events) if e[0] == "pull"), None)
+            if prev_pull is not None and prev_pull[1] != k and prev_pull[2] >= lo and rng.random() < 0.2:
+                tt = prev_pull[2]  # another end point asks for the time just served (lock-step consumers)
+            elif mode < 0.35:
                 cands = [p for p in pubs if p >= lo]
                 tt = rng.choice(cands) if cands else lo
             elif mode < 0.85:
@@ -60,10 +63,19 @@ def build(case):
     info = fm.Info(time=T(0), grid=fm.NoGrid(), units="")
     out = fm.Output(name="out", info=info)
     inputs, regs, adapters = [], [], []
+    shared = None
     for i, kind in enumerate(case["endpoints"]):
         inp = fm.Input(name=f"in{i}", info=fm.Info(time=None, grid=None, units=None))
+        if kind == "scale_shared" and shared is not None:
+            # a second (third, ...) input behind the same pass-through adapter object: the adapter branches
+            shared >> inp
+            inputs.append(inp)
+            adapters.append([shared])
+            regs.append(inp)
+            continue
         chain = {
             "direct": [],
+            "scale_shared": [ad.Scale(1.0)],
             "scale": [ad.Scale(1.0)],
             "prev": [ad.PreviousTime()],
             "next": [ad.NextTime()],
@@ -74,6 +86,8 @@ def build(case):
         for a in chain:
             cur = cur >> a
         cur >> inp
+        if kind in ("scale", "scale_shared"):
+            shared = chain[0]
         inputs.append(inp)
         adapters.append(chain)
         push_based = [a for a in chain if a.needs_push]
